@@ -24,7 +24,11 @@ RULE = ("exhaustive: one record of every length 1..L at every line width 1..W (q
         "right after its call and again after all later calls; every kind of case also on the FASTA without its final newline "
         "(exhaustive block: last line exactly full or short x every interval x both paths); blank-line-separated records (1..3 empty "
         "lines after a record, last line short / full / single, also after the last record) for every kind of case; the FASTA at one path replaced "
-        "(same size in bytes / other size) with its .fai removed and opened again in the same process, first object still alive. Non-trivial = an interval touching or crossing a line break, W = 1, a short last line, "
+        "(same size in bytes / other size) with its .fai removed and opened again in the same process, first object still alive; in one file in three "
+        "(every kind of case, the exhaustive blocks too) the names are not plain identifiers: they start with / contain the comment, header, "
+        "quote and separator characters of text-table readers (# > @ ; , \" ' = % \\ | : *), are digits only / have leading zeros / a sign / look "
+        "like a float or a missing value (1, 007, -1, 1e3, NA, nan, None), are column titles (chrom, name, length) or 70 characters long, "
+        "more often than not in the FIRST record. Non-trivial = an interval touching or crossing a line break, W = 1, a short last line, "
         ">= 2 records or a description")
 EXHAUSTIVE = {"quick": True, "thorough": True}
 MODEL_OPS = {"index", "fetch", "contig", "genome", "index_chunked", "create_index", "session"}
@@ -336,9 +340,41 @@ def _seq(rng, n):
     return "".join(rng.choice("ACGT") for _ in range(n))
 
 
+PLAIN_NAMES = ["a", "b", "chr1", "chr2", "X", "seq10", "c", "MT"]
+# names that are valid FASTA names (everything up to the first whitespace; samtools faidx indexes them like any other) but
+# mean something to SOME text reader: the comment / header / quote / separator characters of delimited-text, CSV and
+# FASTQ readers, texts a table reader would turn into a number or a missing value, digits only (Ensembl style), leading
+# zeros, signs, accession-style punctuation, one long name
+ODD_NAMES = ["#1", "#", "##x", "#chr2", "1", "2", "10", "01", "007", "0", "-1", "+5", "-", "+", "1.0", "1e3", "0x1F", ".", "..",
+             "NA", "nan", "NaN", "null", "None", "True", "inf", "@r1", "@", ";c", "a;b", "a,b", ",", "a=b", "=", "%", "%s", "a%20b",
+             '"q"', '"', "'x'", "'", "`", "\\", "a\\tb", "\\n", "a/b", "/", "~", "!", "$x", "&", "(x)", "[x]", "{x}", "<x>", "a>b", ">x", ">", "?", "^", "*",
+             "chr1:100-200", "gi|123|ref|NC1.1|", "HLA-A*01:01", "NC_1.1", "a.b", "chr1.1", "A", "chrUn-x", "x" * 70,
+             "track", "browser", "chrom", "chromosome", "name", "length"]
+
+
+def _odd_name(rng):
+    if rng.random() < 0.8:
+        return rng.choice(ODD_NAMES)
+    return "".join(chr(rng.choice(range(33, 127))) for _ in range(rng.choice([1, 1, 2, 3, 5, 9])))
+
+
+def _names(rng, k):
+    """k distinct names: plain ones, or (one file in three) names from ODD_NAMES / random printable ASCII, an odd name
+    more often than not in the FIRST record (where a header / comment block of a text reader would be)"""
+    r = rng.random()
+    if r < 0.67:
+        return rng.sample(PLAIN_NAMES, k)
+    out = []
+    while len(out) < k:
+        nm = _odd_name(rng) if (rng.random() < 0.7 or (not out and r < 0.9)) else rng.choice(PLAIN_NAMES)
+        if nm not in out:
+            out.append(nm)
+    return out
+
+
 def _rand_recs(rng, maxlen=12, maxw=9, big_file=False):
     k = rng.choice([3, 4, 5, 6, 8]) if big_file else rng.choice([1, 2, 2, 3, 4])
-    names = rng.sample(["a", "b", "chr1", "chr2", "X", "seq10", "c", "MT"], k)
+    names = _names(rng, k)
     recs = []
     for nm in names:
         n = rng.randint(1, maxlen)
@@ -369,8 +405,9 @@ def _cases(tier, rng):
     # 1. exhaustive: length x width x every interval, three access paths
     for n in range(1, L + 1):
         for w in range(1, W + 1):
-            recs = [{"h": "a", "seq": _seq(rng, n), "w": w}]
-            ivs = _all_intervals("a", n)
+            nm = _names(rng, 1)[0]                  # one file in three: a name that is not a plain identifier
+            recs = [{"h": nm, "seq": _seq(rng, n), "w": w}]
+            ivs = _all_intervals(nm, n)
             for via in ("lib", "supplied", "string"):
                 yield {"op": "fetch", "recs": recs, "ivs": ivs, "supplied": via == "supplied", "string": via == "string"}
             yield {"op": "contig", "recs": recs, "supplied": False}
@@ -403,10 +440,11 @@ def _cases(tier, rng):
         for w in range(1, W + 1):
             if not big and rng.random() < 0.5:
                 continue
-            recs = [{"h": "p some text", "seq": _seq(rng, rng.randint(1, 7)), "w": rng.randint(1, 4)},
-                    {"h": "a desc", "seq": _seq(rng, n), "w": w},
-                    {"h": "q", "seq": _seq(rng, rng.randint(1, 5)), "w": rng.randint(1, 6)}]
-            ivs = _all_intervals("a", n) + _all_intervals("q", len(recs[2]["seq"]))[:5] + _all_intervals("p", len(recs[0]["seq"]))[:5]
+            p_, a_, q_ = _names(rng, 3)
+            recs = [{"h": p_ + " some text", "seq": _seq(rng, rng.randint(1, 7)), "w": rng.randint(1, 4)},
+                    {"h": a_ + " desc", "seq": _seq(rng, n), "w": w},
+                    {"h": q_, "seq": _seq(rng, rng.randint(1, 5)), "w": rng.randint(1, 6)}]
+            ivs = _all_intervals(a_, n) + _all_intervals(q_, len(recs[2]["seq"]))[:5] + _all_intervals(p_, len(recs[0]["seq"]))[:5]
             rng.shuffle(ivs)
             yield {"op": "fetch", "recs": recs, "ivs": ivs, "supplied": rng.random() < 0.3, "string": rng.random() < 0.5}
             yield {"op": "index", "recs": recs}
@@ -426,6 +464,10 @@ def _cases(tier, rng):
             n = rng.randint(1, 14)
             recs.append({"h": "s%d" % i + rng.choice(["", "", " d", "\tx y"]), "seq": _seq(rng, n),
                          "w": rng.choice([1, 2, 3, 5, n, 60])})
+        if rng.random() < 0.3:                      # names that are not plain identifiers, from the first record on
+            for r, nm in zip(recs, _names(rng, rng.randint(1, 5))):
+                if nm not in [name_of(x) for x in recs]:
+                    r["h"] = nm + r["h"][len(name_of(r)):]
         yield {"op": "index_chunked", "recs": recs, "chunk": rng.choice([48, 64, 90, 128, 160])}
         if rng.random() < 0.3:
             yield {"op": "index", "recs": recs}
@@ -595,8 +637,9 @@ def _genome_ivs(c):
 
 
 def _natural(names):
-    import re
-    return sorted(names, key=lambda t: [int(u) if u.isdigit() else u for u in re.split(r"(\d+)", t)])
+    """`sort_names=True` is documented as "sort the chromosome names": plain string order (on names such as chr1, chr2, seq10
+    this is also the natural order; on '007' vs '##x' or '10' vs '2' only the string order is what the keyword promises)"""
+    return sorted(names)
 
 
 def _labels(c):
